@@ -12,6 +12,7 @@ import (
 	"net"
 	"net/http"
 	"strings"
+	"time"
 
 	"nhooyr.io/websocket"
 	"verif/harness/memconn"
@@ -106,7 +107,17 @@ type RespWriter struct {
 	Hijacked bool
 	lib      *memconn.End
 	NoHijack bool
+	// OnHeader, if set, runs once when the status line is decided (net/http puts a
+	// 101 on the wire at this point, before the handler hijacks the connection).
+	OnHeader func(code int, h http.Header)
+	// WaitPending makes Hijack wait (in steps of 1 ms) up to this long for client
+	// bytes to arrive first, so that they sit in the hijacked bufio.Reader the way
+	// they do when a client starts sending as soon as it has seen the 101.
+	WaitPending time.Duration
 }
+
+// NewRespWriter returns a recording writer whose Hijack hands out lib.
+func NewRespWriter(lib *memconn.End) *RespWriter { return &RespWriter{H: http.Header{}, lib: lib} }
 
 func (w *RespWriter) Header() http.Header { return w.H }
 func (w *RespWriter) Write(p []byte) (int, error) {
@@ -119,6 +130,9 @@ func (w *RespWriter) Write(p []byte) (int, error) {
 func (w *RespWriter) WriteHeader(code int) {
 	if w.Code == 0 {
 		w.Code = code
+		if w.OnHeader != nil {
+			w.OnHeader(code, w.H.Clone())
+		}
 	}
 }
 func (w *RespWriter) Hijack() (net.Conn, *bufio.ReadWriter, error) {
@@ -126,6 +140,9 @@ func (w *RespWriter) Hijack() (net.Conn, *bufio.ReadWriter, error) {
 		return nil, nil, errors.New("wsx: hijack refused")
 	}
 	w.Hijacked = true
+	for d := time.Duration(0); d < w.WaitPending && w.lib.InPending() == 0; d += time.Millisecond {
+		time.Sleep(time.Millisecond)
+	}
 	br := bufio.NewReader(w.lib)
 	bw := bufio.NewWriter(w.lib)
 	if w.lib.InPending() > 0 {
@@ -205,7 +222,12 @@ func AcceptReq(r *http.Request, opts *websocket.AcceptOptions, pipelined []byte)
 
 // AcceptOn runs Accept with lib as the hijacked connection.
 func AcceptOn(lib *memconn.End, r *http.Request, opts *websocket.AcceptOptions) (*Server, error) {
-	w := &RespWriter{H: http.Header{}, lib: lib}
+	return AcceptWith(NewRespWriter(lib), r, opts)
+}
+
+// AcceptWith runs Accept with a prepared writer.
+func AcceptWith(w *RespWriter, r *http.Request, opts *websocket.AcceptOptions) (*Server, error) {
+	lib := w.lib
 	s := &Server{Lib: lib, W: w, Req: r}
 	c, err := websocket.Accept(w, r, opts)
 	if err != nil {
